@@ -112,8 +112,34 @@ let sched f o =
            out := "BAD\tside=impl\tclause=sched:value-not-possible" :: !out));
   !out
 
+(* near-deadline wait under wake-ups that never make the condition true: Timeout, at the
+   deadline (not at the first wake-up; not only after the wake-ups have stopped) *)
+let tmo_grace_ms = 250
+let tmo f o =
+  let win = n_of_hex (get f "win") and cap = n_of_hex (get f "cap") in
+  let k = kind_of f in
+  let pre = parse_ops (get f "pre") and ops = parse_ops (get f "t") in
+  let s0 = Stream.exec (Stream.init win cap) pre in
+  let rec never s = function
+    | [] -> not (Condvar.ready k s)
+    | op :: l -> not (Condvar.ready k s) && never (fst (Stream.step s op)) l in
+  if not (never s0 ops) then failwith "tmo case whose condition becomes true (generator bug)";
+  let out = ref [] in
+  (match get_opt o "crash" with
+   | Some c -> out := ("BAD\tside=impl\tclause=crash:" ^ c) :: !out
+   | None ->
+     if get_opt o "end" = Some "stuck" then out := "BAD\tside=impl\tclause=stuck-after-cancel" :: !out;
+     let dl = int_of_string ("0x" ^ get f "dl") and el = int_of_string ("0x" ^ get o "el") in
+     (match parse_obs (get o "final") with
+      | Condvar.StillParked -> out := "BAD\tside=impl\tclause=tmo:never-timed-out" :: !out
+      | Condvar.Returned Condvar.WTimeout ->
+        if el < dl then out := (Printf.sprintf "BAD\tside=impl\tclause=tmo:timeout-before-deadline:%d<%d" el dl) :: !out
+        else if el > dl + tmo_grace_ms then out := (Printf.sprintf "BAD\tside=impl\tclause=tmo:timeout-late:%d>%d" el dl) :: !out
+      | Condvar.Returned _ -> out := "BAD\tside=impl\tclause=tmo:returned-with-false-condition" :: !out));
+  !out
+
 let step _ cs os =
   let f = fields cs and o = fields os in
-  if get_opt f "kind2" = Some "sched" then sched f o else history f o
+  if get_opt f "kind2" = Some "sched" then sched f o else if get_opt f "kind2" = Some "tmo" then tmo f o else history f o
 
 let () = run step
